@@ -980,6 +980,9 @@ class _Simu(_IObserver, _params.Updatable, ABC):
             self.Need_Update()
         elif isinstance(observable, Mesh):
             self._Check_dim_mesh_material()
+            # the mesh was modified in place: the geometry-derived values cached on the simulation
+            # (e.g. the hyperelastic element mass matrices) no longer hold
+            clear_cached_computed_values(self)
             self.Need_Update()
         else:
             Terminal.MyPrintError("Notification not yet implemented")
